@@ -163,8 +163,9 @@ class Exec:
     """Symbolic execution of one loop-free function; returns a list of paths
     (path condition terms, [(obligation term, message)], return V)."""
 
-    def __init__(self, mod, fn, args):
+    def __init__(self, mod, fn, args, fields=None):
         self.mod, self.fn, self.args = mod, fn, args
+        self.fields = fields or {}   # (param local, field index) -> V  for reads through `&self`
         self.steps = 0
 
     def run(self):
@@ -191,6 +192,12 @@ class Exec:
             if not isinstance(t, tuple):
                 raise Unsupported("tuple field of non-tuple _%d" % n)
             return t[k]
+        m = re.match(r"^(?:copy|move) \(\(\*_(\d+)\)\.(\d+): [^)]+\)$", s)
+        if m:
+            key = (int(m.group(1)), int(m.group(2)))
+            if key not in self.fields:
+                raise Unsupported("read of field %d of *_%d (no binding given)" % (key[1], key[0]))
+            return self.fields[key]
         m = re.match(r"^const (-?\d+)_([iu](?:8|16|32|64|128|size))$", s)
         if m:
             return mkconst(int(m.group(1)), m.group(2))
@@ -391,20 +398,27 @@ class Exec:
         raise Unsupported("block bb%d falls through" % bb)
 
 
-def define_fun(mod, suffix, smtname):
+def define_fun(mod, suffix, smtname, fields=None):
     """-> SMT-LIB text defining <smtname>(x...) : Int (value) and <smtname>_ok(x...) : Bool
-    (no MIR assert fails = the function does not panic), plus meta data."""
+    (no MIR assert fails = the function does not panic), plus meta data.  `fields` binds reads
+    of fields behind a reference parameter ((param, field index) -> integer constant, type)."""
     fn = mod.find(suffix)
+    fb = {k: mkconst(v[0], v[1]) for k, v in (fields or {}).items()}
     args = []
+    iparams = []
     for i, t in fn.params:
         if t not in INT_T:
+            if any(k[0] == i for k in fb):
+                args.append(None)   # a reference whose fields are bound
+                continue
             raise Unsupported("parameter type %s" % t)
         args.append(V("x%d" % i, t))
-    ex = Exec(mod, fn, args)
+        iparams.append((i, t))
+    ex = Exec(mod, fn, args, fb)
     paths = ex.run()
     if not paths:
         raise Unsupported("no path returns")
-    sig = " ".join("(x%d Int)" % i for i, _ in fn.params)
+    sig = " ".join("(x%d Int)" % i for i, _ in iparams)
 
     def conj(xs):
         xs = [x for x in xs if x != "true"]
@@ -419,6 +433,6 @@ def define_fun(mod, suffix, smtname):
     obls = sorted(set(obls))
     text = "(define-fun %s (%s) Int %s)\n(define-fun %s_ok (%s) Bool %s)\n" % (
         smtname, sig, val, smtname, sig, conj(obls))
-    dom = " ".join("(and (>= x%d %s) (<= x%d %s))" % (i, lit(trange(t)[0]), i, lit(trange(t)[1])) for i, t in fn.params)
-    return dict(text=text, name=fn.name, params=fn.params, ret=fn.ret, paths=len(paths),
+    dom = " ".join("(and (>= x%d %s) (<= x%d %s))" % (i, lit(trange(t)[0]), i, lit(trange(t)[1])) for i, t in iparams)
+    return dict(text=text, name=fn.name, params=iparams, ret=fn.ret, paths=len(paths),
                 obligations=len(obls), steps=ex.steps, domain=dom)
